@@ -4,7 +4,7 @@ LEVEL = 'model_checking'
 EXPLANATION = ('Small-scope exhaustive exploration driven by the solver: strings are assembled from symbolic indices into an alphabet of character '
                'classes (letter, digit, "$", punctuation, space, CJK, ...); symx enumerates the index space through z3 and runs the real '
                'tokenizers / TrieTree / StringMatcher natively on each string; oracles are an independently written reference tokenizer and a brute-force occurrence search.')
-ASSUMPTIONS = ['alphabet: a, B, 7, $, comma, space, CJK ideograph (thorough adds katakana, hangul, NBSP, hyphen)', 'strings up to length 4 (quick) / 6 (thorough)',
+ASSUMPTIONS = ['alphabet: a, B, 7, $, comma, space, CJK ideograph (thorough adds katakana, hangul, NBSP, hyphen)', 'strings up to length 4 (quick) / 5 (thorough)',
                'trie: 2 phrases of 1..2 tokens over a 3-token vocabulary, queries of up to 4 tokens; StringMatcher: 4 phrases, queries up to length 5 (thorough 7)']
 OUTSIDE = ['dictionaries of 30 phrases and queries of length 40 (the property sizes) are beyond path enumeration', 'AcAutomaton strategy']
 M = 'recognizers_text.matcher.'
@@ -12,7 +12,7 @@ M = 'recognizers_text.matcher.'
 
 def obligations(tier):
     t = 200 if tier == 'quick' else 1500
-    n = 4 if tier == 'quick' else 6
+    n = 4 if tier == 'quick' else 5
     extra = {'wide': 1} if tier == 'thorough' else {}
     na = 11 if tier == 'thorough' else 7
     tok = [dict({'len': n, 'first': f, 'unit': u}, **extra) for u in (0, 1) for f in range(na)]
